@@ -94,6 +94,9 @@ class SieveProgram(Program):
                 return Enum('Some', [I(s.v, 'usize')])
             return Enum('None')
 
+        from .stdmodel import install_std_models
+        install_std_models(self)
+
     def one(self, name):
         c = self.fn.get(name, [])
         if len(c) != 1:
